@@ -328,6 +328,7 @@ func runC03(e *Engine, r *Report) {
 	}
 	ruleSingleNodeQuorum(e, r)
 	ruleRaftPredicates(e, r, "upToDate", "dropRequestVote", "termNotMatched")
+	ruleSelfRemoved(e, r)
 }
 
 // canGrantTrueEdges: in the boolean phi that forms the predicate's result,
